@@ -27,7 +27,18 @@ def main():
     if a.replay:
         with open(a.replay) as f:
             v = json.load(f)
-        ok = mod.replay(v)
+        if hasattr(mod, "replay"):
+            ok = mod.replay(v)
+        else:
+            # generic replay: re-run the section the violation came from (same tier and seed, /repo's current tree);
+            # every counterexample found there is again replayed on the real code with the model pinned. Reproduced =
+            # a violation with the same signature shows up again.
+            chk = Check(a.pid, mod.LEVEL, v.get("tier", a.tier), int(v.get("seed", a.seed)))
+            chk.only = v.get("section")
+            chk.dry = True
+            mod.run(chk)
+            chk.finish()
+            ok = any(w.get("replayed") and w.get("signature") == v.get("signature") for w in chk.violations)
         print(("REPRODUCED" if ok else "NOT REPRODUCED"), a.replay)
         sys.exit(1 if ok else 0)
     chk = Check(a.pid, mod.LEVEL, a.tier, a.seed)
